@@ -2,7 +2,7 @@
   Proofs/GuardAt — the raise-set soundness with a per-call-site fault assumption ("only these calls fail, and only
   with these classes"), and its consequence: a function whose remaining calls succeed runs to its end.
 -/
-import DeepModel.Proofs.GuardRet
+import DeepModel.Proofs.GuardProg
 
 namespace Guard
 open Py (Exn)
@@ -134,5 +134,33 @@ theorem guard_sound_at (at_ : String → RaiseSet) (s : Stmt) (hg : mayRaiseF at
 
 /-- faults only at the listed call sites, and only of the `Exception` class -/
 def onlyAt (sites : List String) : String → RaiseSet := fun s => if sites.contains s then RaiseSet.onlyExc else RaiseSet.empty
+
+/-- conditions with a known truth value, given as a list of facts about `env` -/
+theorem agrees_of_forall (fx : Fixed) (env : Env) (h : ∀ p ∈ fx, ∀ tr, env.cond tr p.1 = p.2) : Agrees fx env := by
+  intro c b hc tr
+  simp only [Fixed.get, Option.map_eq_some_iff] at hc
+  obtain ⟨a, ha, rfl⟩ := hc
+  have hm := List.mem_of_find?_eq_some ha
+  have hp := List.find?_some ha
+  simp only [beq_iff_eq] at hp
+  rw [← hp]; exact h a hm tr
+
+/-- **a function whose only failing calls are guarded runs to its end**: if under the per-site assumption nothing can
+    escape `s`, `s` cannot return (for the fixed conditions), break or continue, and its last statement is the store
+    `self.f = v`, then every execution ends normally and has made that store. -/
+theorem completes_with_store (at_ : String → RaiseSet) (s : Stmt) (hg : mayRaiseF at_ s = RaiseSet.empty)
+    (fx : Fixed) (hret : mayRet fx s = []) (hb : mayBreak s = false) (hc : mayCont s = false)
+    (f v : String) (hl : lastOf s = .assign f v)
+    (env : Env) (hf : FaultsAt at_ env) (ha : Agrees fx env) (tr : Trace) (o : Out) (tr' : Trace)
+    (h : exec env s tr = (o, tr')) : o = .normal ∧ Ev.set f v ∈ tr' := by
+  have hn : o = .normal := by
+    cases o with
+    | normal => rfl
+    | returned r => have := mayRet_sound fx env ha s _ _ _ h; rw [hret] at this; simp at this
+    | broke => have := mayBreak_sound env s _ _ h; rw [hb] at this; simp at this
+    | continued => have := mayCont_sound env s _ _ h; rw [hc] at this; simp at this
+    | raised e => exact absurd h (guard_sound_at at_ s hg env hf tr e tr')
+  subst hn
+  exact ⟨rfl, normal_last_assign env f v s hl _ _ h⟩
 
 end Guard
